@@ -66,6 +66,9 @@ type Run struct {
 	Deadlock bool
 	Blocked  []string // description of blocked threads on deadlock
 	Horizon  bool     // point budget exhausted
+	Stuck    bool     // a thread blocked outside the modelled synchronisation (also sets Deadlock)
+	prog     atomic.Int64
+	stuck    atomic.Bool
 	Diverged string   // non-empty: a prefix choice was out of range (replay divergence)
 	aborting bool
 	maxPts   int
@@ -258,6 +261,7 @@ func (r *Run) Start() {
 		panic("verifsched: an exploration is already active")
 	}
 	defer active.Store(nil)
+	monitorOnce.Do(func() { go monitor() })
 	for {
 		var en []*thread
 		if r.cur != nil && r.enabled(r.cur) {
@@ -333,8 +337,56 @@ func (r *Run) Start() {
 		if !t.started {
 			r.launch(t)
 		}
+		r.prog.Add(1)
 		t.wake <- struct{}{}
 		<-r.toCtl
+		if r.stuck.Load() {
+			// the thread did not come back within StuckAfter of real time: it sits in an operation
+			// the shim does not model (a channel, a socket). It is left behind; the run ends as a
+			// deadlock and the exploration stops (see StuckSeen).
+			r.Stuck, r.Deadlock = true, true
+			r.Blocked = append(r.Blocked, fmt.Sprintf("%s (blocked for more than %v of real time in an operation outside the modelled synchronisation: channel or socket)", t.name, StuckAfter))
+			t.done = true
+			StuckSeen.Store(true)
+			r.abort()
+			return
+		}
+	}
+}
+
+// StuckAfter is how long (real time) a thread may run between two scheduling points before
+// the run is declared stuck. Steps take microseconds; this only ever fires for a thread that
+// blocks forever in something that is not a lock of the shim.
+var StuckAfter = 180 * time.Second
+
+// StuckSeen is set once a run of this process ended stuck; explorers stop when they see it
+// (every further execution would wait StuckAfter again, and the thread left behind may still
+// hold process-wide state).
+var StuckSeen atomic.Bool
+
+var monitorOnce sync.Once
+
+func monitor() {
+	var last *Run
+	var lastProg int64
+	since := time.Now()
+	for {
+		time.Sleep(time.Second)
+		r := active.Load()
+		if r == nil {
+			last = nil
+			continue
+		}
+		if p := r.prog.Load(); r != last || p != lastProg {
+			last, lastProg, since = r, p, time.Now()
+			continue
+		}
+		if time.Since(since) > StuckAfter && !r.stuck.Swap(true) {
+			select {
+			case r.toCtl <- struct{}{}:
+			case <-time.After(10 * time.Second):
+			}
+		}
 	}
 }
 
